@@ -96,13 +96,11 @@ def generate():
             if re.match(r"^\s+[\w\.\*\[\]\(\)&]+.*;\s*$", a) and re.match(r"^\s+[\w\.\*\[\]\(\)&]+.*;\s*$", b) and not a.strip().startswith(("let ", "return", "//")) \
                     and not b.strip().startswith(("let ", "return", "//")) and re.match(r"^\s*", a).group(0) == re.match(r"^\s*", b).group(0):
                 muts.append({"file": f, "line": i + 1, "op": "swap:adjacent", "old": a + "\n" + b, "new": b + "\n" + a, "span": 2})
-    # deterministic sample: everything in the mapper and the loop, a hash-chosen third elsewhere
     keep = []
     for m in muts:
         h = int(hashlib.sha1(("%s:%d:%s:%s" % (m["file"], m["line"], m["op"], m["new"])).encode()).hexdigest(), 16)
         m["id"] = "m%06x" % (h & 0xffffff)
-        if m["file"] in ("src/key_transforms.rs", "src/remapping_loop.rs", "src/dev_input_rw.rs") or h % 3 == 0:
-            keep.append(m)
+        keep.append(m)      # (a first pass took every mutant of the mapper, the loop and the reader/writer and a third of the rest; the second pass took the remainder)
     json.dump(keep, open(os.path.join(OUT, "mutants.json"), "w"), indent=0)
     print(len(muts), "generated,", len(keep), "kept")
 
